@@ -57,6 +57,10 @@ def cases(tier):
         out.append(f"init/{ssm}/filter/mle/ts0/o1q1d1/damp_sym")
         out.append(f"init/{ssm}/filter/dynamic/ts1/o1q1d1/damp_sym")
     out.append("init/dense/filter/none/ts0/o2q2d1/damp_sym")
+    for ssm in cm.SSMS:
+        out.append(f"initexact/{ssm}/filter/none/ts1/o1q1d1/damp_zero")
+    for ssm in cm.SSMS:
+        out.append(f"initexact/{ssm}/filter/mle/ts0/o1q1d1/damp_zero")      # known finding: NaN running scale
     if tier == "thorough":
         for ssm in cm.SSMS:
             if ssm != "dense":      # dense d=2 TS1 (generic 4x4 factor, state-dependent Jacobian): not decided within 40 min
@@ -132,7 +136,7 @@ def build_step(key, num_data=1):
     return make, goals
 
 
-def build_init(key):
+def build_init(key, exact=False):
     """solver.init with an initial-constraint update: the returned state is the exact conditioning of the initial
     distribution on the linearised constraint; MLE bookkeeping counts the update as one datum"""
     cfg = sc.parse_key(key)
@@ -144,6 +148,10 @@ def build_init(key):
         prior_s, pinfo = sc.sym_prior(dom, cfg, prior_c)
         _, Normal = cm.impl(cfg.ssm)
         m0, L0 = cm.sym_rv(dom, cfg.ssm, n, d, "i")
+        if exact:
+            # exactly known initial Taylor coefficients (the library's default) and no damping: the innovation of the
+            # initial update is exactly singular
+            L0 = np.zeros(np.shape(L0))
         prior_s.init = Normal(m0, L0, prior_c.init.tree_flatten)
         t0 = sym_array(dom, "t0", ())
         damp = sym_array(dom, "damp", ()) if cfg.damp == "sym" else np.zeros(())
@@ -158,6 +166,13 @@ def build_init(key):
         prior, t0, damp, co, ex = args
         u, full, aux, oscale, t, nst = out
         m, P = cm.dense_rv_raw(orc, cfg.ssm, ex["m0"], ex["L0"], d)
+        if exact:
+            mo, Po = cm.dense_rv(orc, cfg.ssm, u, d)
+            mf, Pf = cm.dense_rv(orc, cfg.ssm, full, d)
+            return {"exact initial state: the initial update leaves the mean unchanged": (mo, m),
+                    "exact initial state: covariance stays zero": (Po, orc.zeros(Po.shape)),
+                    "exact initial state: solution_full carries the same marginal": (np.concatenate([mf, Pf.reshape(-1)]),
+                                                                                     np.concatenate([m, orc.zeros(Pf.shape).reshape(-1)]))}
         tt = sc.sc(orc.arr(t0)); dd = sc.sc(orc.arr(damp))
         H, z = sc.linearise_oracle(orc, cfg, co, m, tt)
         S = orc.name(H.dot(P).dot(H.T) + orc.eye(d) * (dd * dd), "Si")
@@ -271,6 +286,8 @@ def _case(case_id, tier):
         make, goals = build_grid(key, nsteps=2)
     elif kind == "init":
         make, goals = build_init(key)
+    elif kind == "initexact":
+        make, goals = build_init(key, exact=True)
     else:
         raise KeyError(kind)
     return PCase("C02/" + case_id, make, goals, budget_s=300 if tier == "quick" else 1200)
